@@ -175,7 +175,7 @@ func c03OneOfs() []*gen.Shape {
 	intT := func() *gen.Shape { return &gen.Shape{Kind: gen.KInt, Min: p64(0), Max: p64(9)} }
 	for _, kind := range []gen.Kind{gen.KOneOfStr, gen.KOneOfInt} {
 		for _, inlined := range []bool{false, true} {
-			for variant := 0; variant < 4; variant++ {
+			for variant := 0; variant < 5; variant++ {
 				var discT *gen.Shape
 				if kind == gen.KOneOfStr {
 					discT = &gen.Shape{Kind: gen.KString}
@@ -202,6 +202,15 @@ func c03OneOfs() []*gen.Shape {
 					one.Members = []*gen.Member{{KeyS: "first", KeyI: 1, T: &gen.Shape{Kind: gen.KRef, RefID: "A"}}, {KeyS: "second", KeyI: -7, T: &gen.Shape{Kind: gen.KRef, RefID: "B"}}}
 					root := &gen.Shape{Kind: gen.KObject, ID: "Root", Props: []*gen.Prop{{Name: "choice", T: one, Required: true}}}
 					out = append(out, &gen.Shape{Kind: gen.KScope, Root: "Root", Objects: []*gen.Shape{root, a, b}})
+				case 4: // struct-mapped members (told apart by their Go type when a native value is validated or serialized)
+					if inlined {
+						continue
+					}
+					a.Struct, b.Struct = "P15", "P16"
+					z := mk("Z", false, "z")
+					z.Struct = "P17"
+					one.Members = []*gen.Member{{KeyS: "first", KeyI: 1, T: a}, {KeyS: "second", KeyI: 2, T: b}, {KeyS: "", KeyI: 0, T: z}}
+					out = append(out, one)
 				case 3: // a scope as member
 					one.Members = []*gen.Member{{KeyS: "first", KeyI: math.MaxInt64, T: &gen.Shape{Kind: gen.KScope, Root: "A", Objects: []*gen.Shape{a}}}, {KeyS: "10", KeyI: 10, T: b}}
 					out = append(out, one)
@@ -505,7 +514,13 @@ func c03NativeForm(c *wk.Ctx, t schema.Type, shape *gen.Shape, env *gen.Env, nat
 	skip := false
 	gen.WalkEnv(shape, env, func(s *gen.Shape, _ *gen.Env) {
 		if s.Kind == gen.KObject && s.Struct != "" && !gen.AllAbsentable(s) {
-			skip = true
+			// a property that may be absent but is mapped to a field that cannot say so has no defined native form
+			// (a required property on a value field has: it is always present)
+			for _, p := range s.Props {
+				if !p.Required && !p.EmptyDef && !gen.PointerField(s.Struct, p.Name) {
+					skip = true
+				}
+			}
 		}
 		if s.Kind == gen.KAny {
 			skip = true
